@@ -202,6 +202,9 @@ func (d *driver) writeEvidence(prop, tier string, master uint64, agg *WorkerSumm
 		},
 	}
 	dir := filepath.Join(d.verifDir, "evidence")
+	if e := os.Getenv("VERIF_EVIDENCE_DIR"); e != "" {
+		dir = e
+	}
 	os.MkdirAll(dir, 0o755)
 	b, err := json.MarshalIndent(ev, "", " ")
 	if err != nil {
